@@ -1151,6 +1151,11 @@ theorem witness_nullable_union :
     verdict (nd [.types [.string, .null]]) .null = some false ∧ jsValid (nd [.types [.string, .null]]) .null = true
     ∧ verdict (nd [.anyOf (.cons (nd [.type .string]) (.cons (nd [.type .null]) .nil))]) .null = some false := by decide
 
+/-- an Intersection rejects nil before its sides are asked: an allOf whose members all admit null rejects null. -/
+theorem witness_nullable_intersection :
+    verdict (nd [.allOf (.cons (nd [.type .null]) (.cons (nd []) .nil))]) .null = some false
+    ∧ jsValid (nd [.allOf (.cons (nd [.type .null]) (.cons (nd []) .nil))]) .null = true := by decide
+
 theorem witness_sibling_keywords_dropped :
     verdict (nd [.const (.str [98]), .type .number]) (.str [98]) = some true
     ∧ jsValid (nd [.const (.str [98]), .type .number]) (.str [98]) = false
